@@ -977,7 +977,7 @@ func TestC17(t *testing.T) {
 		r.Set("detector_selftest_events", len(seen))
 	}
 
-	r.Rule(fmt.Sprintf("one fixed root (a/{x,y,l,d/y,s/{x,y,l,d/y}}, b) in which one path component is, or becomes between the scan and the operation, a symbolic link (relative and absolute) to a canary outside the root; %d cases: Transition (11 operations x {a/, a/s/} x every link position on the planned path incl. the leaf x {link appears after the scan: the directory/file itself is moved out and becomes the canary, so inodes, times and the cache all match; link already there at scan time} + removal/replacement of a directory that is or contains the link), core.Scan (cold in 3 link modes, warm, accelerated with 4 re-check sets x 5 link positions), filesystem.Opener (every sequence of <=3 (thorough: <=4) opens over 5 paths that crosses the link x link appearing before open K), rsync.Transmit, rsync receiver (bases across the link), and a real local endpoint (Scan, Stage with copy-from-root shortcut, reception, Supply, Transition; plus staging modes {mutagen, neighboring, internal} x a link to the canary planted at {nothing, the staging root, the staged file's prefix directory, the staged file's own path} x {before, after the scan}, judged for the internal mode, whose staging root lives inside the root). Intra-operation legs: for every quick-tier tree x single-change plan x {no ownership, DefaultOwner+Group} (thorough: also EXDEV staging), every tree scanned in 2 link modes, and every Opener sequence of <=2 opens, a recording run yields the hook points; then one run per point x {leaf, parent} in which, at that point and before the real syscall proceeds, the named object (or its parent directory) is moved aside and replaced by a link to a canary file/directory of the matching type (canary modes 0755/0644, owner root, so chmod/chown show); only canary integrity is judged there. Non-trivial = the operation was aimed across the link (for accelerated scans: the link position was marked dirty; for intra-operation runs: the swap was carried out); distinct by all case parameters", len(cases)))
+	r.Rule(fmt.Sprintf("one fixed root (a/{x,y,l,d/y,s/{x,y,l,d/y}}, b) in which one path component is, or becomes between the scan and the operation, a symbolic link (relative and absolute) to a canary outside the root; %d cases: Transition (11 operations x {a/, a/s/} x every link position on the planned path incl. the leaf x {link appears after the scan: the directory/file itself is moved out and becomes the canary, so inodes, times and the cache all match; link already there at scan time} + removal/replacement of a directory that is or contains the link), core.Scan (cold in 3 link modes, warm, accelerated with 4 re-check sets x 5 link positions), filesystem.Opener (every sequence of <=3 (thorough: <=4) opens over 5 paths that crosses the link x link appearing before open K), rsync.Transmit, rsync receiver (bases across the link), and a real local endpoint (Scan, Stage with copy-from-root shortcut, reception, Supply, Transition; plus staging modes {mutagen, neighboring, internal} x a link to the canary planted at {nothing, the staging root, the staged file's prefix directory, the staged file's own path} x {before, after the scan}, judged for the internal mode, whose staging root lives inside the root). Intra-operation legs: for every quick-tier tree x single-change plan x {no ownership, DefaultOwner+Group} (thorough: also EXDEV staging), every tree scanned in 2 link modes, and every Opener sequence of <=2 opens, a recording run yields the hook points; plus 9 multi-transition plans on the fixed root whose transitions share a parent two or three levels deep; then one run per point (syscall-wrapper hook points and the Provider callback) x {the named object, its parent, the ancestors two and three levels up} in which, at that point and before the real call proceeds, that object is moved aside and replaced by a link to a canary file/directory of the matching type (canary modes 0755/0644, owner root, so chmod/chown show); only canary integrity is judged there. Non-trivial = the operation was aimed across the link (for accelerated scans: the link position was marked dirty; for intra-operation runs: the swap was carried out); distinct by all case parameters", len(cases)))
 	r.Assume("the canary is observed by inotify (IN_ALL_EVENTS on every directory and file; events are queued by the kernel inside the causing syscall), by a strict lstat+bytes snapshot, and by the verif hook points (descriptor resolves into the canary)",
 		"stat/lstat of the link itself is not an access outside the root; O_PATH opens and stat calls are invisible to inotify",
 		"link swaps happen between operations or, in the intra-operation legs, at hook points immediately before a filesystem call; windows inside the kernel during one call are not explored",
@@ -1019,10 +1019,10 @@ func TestC17(t *testing.T) {
 		}
 		rec := judge(g)
 		for _, p := range rec.log {
-			if !strings.HasPrefix(p.Path, "root/") {
-				continue // staging area, the root itself, or its parent
-			}
-			for _, variant := range []string{"leaf", "parent"} {
+			for _, variant := range swapVariants {
+				if swapTarget(p.Path, variant) == "" {
+					continue // staging area, the root itself, or its parent
+				}
 				c := g
 				at := p
 				c.At, c.Variant = &at, variant
